@@ -359,7 +359,7 @@ struct RebuildSearch {
             const bool lastIsE = (!hist.empty() && hist.back().kind == 'E');
             if(!md.pendingMove && !lastIsE && (hist.empty() || hist.back().kind == 'R')) menu.push_back({'E', 0, 0});
             for(const Op& op : menu){
-                if(rep.timeUp()){ rep.exhaustive = false; return; }
+                if(rep.timeUp()){ rep.cutSpace("C13 " + spec.str() + " depth=" + std::to_string(depth) + ": interrupted after states=" + std::to_string(states) + " transitions=" + std::to_string(transitions)); return; }
                 std::vector<Op> h2 = hist; h2.push_back(op);
                 const std::string cs = base + opsStr(h2);
                 if(!pg.begin(cs)) continue;
@@ -375,6 +375,7 @@ struct RebuildSearch {
                     }
                 }
                 rep.addOutcome(out, cs);
+                if(rep.evaluations % 3001 == 1) rep.sample(cs);
                 if(seen.insert(key).second){ states += 1; frontier.push_back(h2); }
             }
             pg.publish(rep);
@@ -513,7 +514,7 @@ int main(int argc, char** argv){
             rep.spaces.push_back("per tree and upper level 0..height: BFS over the 12 flag states (down-closed chain prefix x P2P) with every legal next call + every single flag alone from every state, and all 112 complete partitions replayed explicitly");
             for(const Spec& base : c12Trees(thorough)) for(long up = 0 ; up <= base.height ; ++up){
                 if((ord++) % args.nbSlices != args.slice) continue;
-                if(rep.timeUp()){ rep.exhaustive = false; return; }
+                if(rep.timeUp()){ rep.cut(); return; }
                 Spec s = base; s.upperLevel = up;
                 switch(s.dim){
                 case 1: { FlagSearch<1> f{s, rep, pg}; f.run(); allPartitions<1>(s, rep, pg); break; }
